@@ -4,6 +4,7 @@ package main
 
 import (
 	"fmt"
+	"go/token"
 	"strings"
 
 	"golang.org/x/tools/go/ssa"
@@ -158,6 +159,39 @@ func runC16(c *Ctx) {
 		if n == "counter.Open" || n == "os.Stat" || n == "telemetry.acquireUploadToken" || n == "telemetry.startChild" || effectTable[n] != "" {
 			r.Check("C16.fork-gate", "parent/"+n+" under mode != off", m.Pos(cs.Pos()), hasFact(factsAt(cs), modeOffFact(false)), "with mode off nothing is launched and nothing is written")
 		}
+	}
+
+	// the directory override precedes every consultation of telemetry.Default: a read of the
+	// global that can still be followed by a store to it consulted the wrong directory
+	// (mode file, local dir, token) for a configured TelemetryDir.
+	if def := m.GlobalVar("internal/telemetry", "Default"); def != nil {
+		isStoreDef := func(in ssa.Instruction) bool {
+			st, ok := in.(*ssa.Store)
+			return ok && st.Addr == ssa.Value(def)
+		}
+		never := func(ssa.Instruction) bool { return false }
+		for _, fn := range []*ssa.Function{parent, child} {
+			nRead, nStore := 0, 0
+			for _, in := range instrsOf(fn) {
+				if isStoreDef(in) {
+					nStore++
+				}
+				ld, ok := in.(*ssa.UnOp)
+				if !ok || ld.Op != token.MUL || ld.X != ssa.Value(def) {
+					continue
+				}
+				nRead++
+				late := reachesWithout(ld, isStoreDef, never)
+				detail := "no later override"
+				if late != nil {
+					detail = "telemetry.Default is read here and overridden afterwards at " + m.Pos(late.Pos())
+				}
+				r.Check("C16.fork-gate", fmt.Sprintf("%s/telemetry.Default read #%d follows the TelemetryDir override", fn.Name(), nRead), m.Pos(ld.Pos()), late == nil, detail)
+			}
+			r.Check("C16.fork-gate", fn.Name()+"/applies the TelemetryDir override", m.Pos(fn.Pos()), nStore == 1, fmt.Sprintf("%d stores to telemetry.Default, %d direct reads", nStore, nRead))
+		}
+	} else {
+		r.Check("C16.fork-gate", "telemetry.Default resolved", "-", false, "global not found")
 	}
 
 	// ---- marker first -----------------------------------------------------
